@@ -39,6 +39,7 @@ class NodeCtl:
         self.update_exc = []   # exceptions escaping update()
         self.updates = 0
         self.running = True
+        self.hold_until = 0    # the application takes no new command before this instant (it keeps polling)
 
     @property
     def addr(self):
@@ -84,8 +85,14 @@ class Net:
         sim = self.sim
         node = nc.node
         while not self.stop and nc.running:
-            while nc.cmds:
+            while nc.cmds and sim.now >= nc.hold_until:
                 c = nc.cmds.pop(0)
+                if c.name == "hold":
+                    # application-level pause: the main loop keeps calling update(), it just waits with its next call
+                    nc.hold_until = sim.now + int(c.fn)
+                    c.t0 = c.t1 = sim.now
+                    c.done = True
+                    continue
                 nc.busy = True
                 c.t0 = sim.now
                 sim.log("call", nc.key, c.name)
@@ -116,12 +123,22 @@ class Net:
             self._drain(nc)
             if self.stop or not nc.running:
                 break
+            if nc.cmds and sim.now < nc.hold_until and not nc.radio.rx_fifo:
+                nc.idle = True
+                sim.after(nc.hold_until - sim.now, self._hold_wake, nc)
+                sim.park()
+                nc.idle = False
+                continue
             if nc.radio.rx_fifo or nc.cmds:
                 sim.advance(nc.mcu.rng.randint(0, max(1, nc.mcu.poll_ns // 4)) + 10 * US)
                 continue
             nc.idle = True
             sim.park()
             nc.idle = False
+
+    def _hold_wake(self, nc):
+        if nc.idle and nc.task is not None:
+            self.sim.wake(nc.task)
 
     def _drain(self, nc):
         node = nc.node
@@ -142,6 +159,10 @@ class Net:
         if nc.idle:
             self.sim.wake(nc.task)
         return c
+
+    def hold(self, key, ns):
+        """the node's application waits `ns` before its next command but keeps running its update() loop"""
+        return self.post(key, "hold", int(ns))
 
     def wait(self, cmd, timeout=60_000 * MS, step=200 * US):
         deadline = self.sim.now + timeout
